@@ -110,6 +110,7 @@ func pointStmt() ast.Stmt {
 func instrument(f *ast.File, stmtLevel bool) int {
 	n := 0
 	isFuncBody := map[*ast.BlockStmt]bool{}
+	clauses := map[*ast.BlockStmt]bool{}
 	var blocks []*ast.BlockStmt
 	ast.Inspect(f, func(nd ast.Node) bool {
 		switch x := nd.(type) {
@@ -126,7 +127,16 @@ func instrument(f *ast.File, stmtLevel bool) int {
 			}
 		case *ast.FuncLit:
 			isFuncBody[x.Body] = true
+		case *ast.SwitchStmt: // the body of a switch / select holds clauses, not statements
+			clauses[x.Body] = true
+		case *ast.TypeSwitchStmt:
+			clauses[x.Body] = true
+		case *ast.SelectStmt:
+			clauses[x.Body] = true
 		case *ast.BlockStmt:
+			if clauses[x] {
+				return true
+			}
 			if isFuncBody[x] || stmtLevel {
 				blocks = append(blocks, x)
 			}
